@@ -772,6 +772,80 @@ pub fn run_into<T: Case + Into<TT<K>>, const K: u8, W: Write>(out: &mut Out<W>, 
     }
 }
 
+// ---------------------------------------------------------------- unions (C20)
+
+pub trait UCase: Sized {
+    const ID: usize;
+    /// build the union from exactly size_of::<Self>() bytes (through its `raw` byte-array member)
+    fn from_bytes(b: &[u8]) -> Self;
+}
+
+pub fn union_patterns(n: usize) -> Vec<Vec<u8>> {
+    let dom = [0u8, 7, 255];
+    if n <= 2 {
+        let mut out = Vec::new();
+        let total = dom.len().pow(n as u32);
+        for mut k in 0..total {
+            let mut b = vec![0u8; n];
+            for i in (0..n).rev() {
+                b[i] = dom[k % 3];
+                k /= 3;
+            }
+            out.push(b);
+        }
+        out
+    } else {
+        vec![
+            vec![0u8; n],
+            vec![255u8; n],
+            (1..=n).map(|i| i as u8).collect(),
+            (1..=n).map(|i| if i == n { 7 } else { 0 }).collect(),
+            (1..=n).map(|i| if i == 1 { 7 } else { 0 }).collect(),
+        ]
+    }
+}
+
+fn bytes_json(b: &[u8]) -> String {
+    let v: Vec<String> = b.iter().map(|x| x.to_string()).collect();
+    format!("[{}]", v.join(","))
+}
+
+fn raw_bytes<T>(x: &T) -> Vec<u8> {
+    unsafe { std::slice::from_raw_parts(x as *const T as *const u8, std::mem::size_of::<T>()).to_vec() }
+}
+
+pub fn run_union<T: UCase + std::fmt::Debug + PartialEq + Hash + Clone, W: Write>(out: &mut Out<W>, type_name: &str) {
+    let n = std::mem::size_of::<T>();
+    let pats = union_patterns(n);
+    for b in pats.iter() {
+        let x = T::from_bytes(b);
+        let r = catch_unwind(AssertUnwindSafe(|| {
+            let (o, p) = fmt_both(&x);
+            let mut h = RecHasher::default();
+            x.hash(&mut h);
+            let mut hr = RecHasher::default();
+            b[..].hash(&mut hr);
+            let c = x.clone();
+            let mut eqs = Vec::new();
+            for b2 in pats.iter() {
+                let y = T::from_bytes(b2);
+                eqs.push(format!("[{},{}]", bytes_json(b2), x == y));
+            }
+            format!(
+                "\"out\":{},\"pretty\":{},\"feed\":[{}],\"reffeed\":[{}],\"clone\":{},\"eqs\":[{}]",
+                jstr(&o), jstr(&p), h.feed.join(","), hr.feed.join(","), bytes_json(&raw_bytes(&c)), eqs.join(",")
+            )
+        }));
+        match r {
+            Ok(body) => out.rec(&format!(
+                "\"ev\":\"op\",\"t\":{},\"op\":\"union\",\"nm\":{},\"bytes\":{},{}",
+                T::ID, jstr(type_name), bytes_json(b), body
+            )),
+            Err(_) => out.rec(&format!("\"ev\":\"op\",\"t\":{},\"op\":\"panic\",\"in\":\"union\"", T::ID)),
+        }
+    }
+}
+
 // ---------------------------------------------------------------- layout matrix (C04)
 
 /// A value with neighbour bytes: the value sits at offset 0 of a `#[repr(C)]` pair whose second member is
